@@ -35,14 +35,107 @@ Proof.
   exists rs. split; [reflexivity | apply ran_length; exact Hr].
 Qed.
 
-Section Reach.
-  Variables (c : cfg) (hs : list hop).
-  Hypothesis Hff : Forall ff_hop hs.
-  Hypothesis Hcf : Forall crash_free hs.
-  Let w := reach c hs.
+(* ------------------------------------- the composite step keeps the invariants *)
 
-  (* (1) at every handler position of every fault-free, crash-free history *)
-  Theorem hu_logout_hist r pre s o ob u post :
+Lemma user_call_inv b base D s c : inv b base NX D s ->
+  exists s', user_call s c = (s', Ok tt) /\ inv b base NX D s' /\ ids_pres s s'.
+Proof. intro I. destruct c as [u|u]; cbn [user_call]; [apply logout_user_inv | apply refresh_user_inv]; exact I. Qed.
+
+Lemma hu_tail_inv base s o had c post : inv 0 base NX ND s -> hok 0 ND s o ->
+  inv 0 base NX ND (fst (fst (fst (hu_tail s o had c post)))).
+Proof.
+  intros I H. unfold hu_tail. destruct (user_call_inv _ _ _ s c I) as (s1 & E & I1 & Hi). rewrite E.
+  destruct (fire_due_inv _ _ _ _ I1) as (I2 & Hh & _).
+  assert (H2 : hok 0 ND (fire_due s1) o).
+  { eapply hok_ids; [apply ids_pres_heap; exact Hh|]. eapply hok_ids; eassumption. }
+  destruct (run_script_inv _ _ _ had post _ _ I2 H2) as (s' & rs & ck & E2 & I3 & _). rewrite E2. exact I3.
+Qed.
+
+Lemma hu_body_inv base s o had pre c post : inv 0 base NX ND s -> hok 0 ND s o ->
+  inv 0 base NX ND (fst (fst (fst (hu_body s o had pre c post)))).
+Proof.
+  intros I H. unfold hu_body.
+  destruct (run_script_inv _ _ _ had pre _ _ I H) as (s1 & rs & ck & E & I1 & H1 & _). rewrite E.
+  destruct (hu_ran pre rs); [|exact I1].
+  pose proof (hu_tail_inv base s1 o had c post I1 H1) as I2.
+  destruct (hu_tail s1 o had c post) as [[[s2 rs2] ck2] mid]. exact I2.
+Qed.
+
+(* a fault-free composite request step preserves the invariants of SessDefs.v *)
+Theorem hu_step_sess_inv w r c post : sess_inv (w_st w) -> rq_plan r = [] ->
+  sess_inv (w_st (fst (hu_step w r c post))).
+Proof.
+  intros Hinv Hpl. pose proof (sess_inv_inv _ (LiveHist8.req_s1_sess_inv w r Hinv)) as I1.
+  unfold hu_step. rewrite Hpl. fold (req_s1 w r).
+  set (q := mkReq _ (rq_create r) (rq_addr r) (rq_ua r)).
+  destruct (start_inv _ _ _ _ q I1) as (s2 & res & cks & E & I2 & Hres & _). rewrite E.
+  destruct (fire_due_inv _ _ _ _ I2) as (I3 & Hh & _).
+  assert (Fin : forall s3, inv 0 (supply (req_s1 w r), evs (req_s1 w r)) NX ND s3 -> sess_inv (set_tb (set_plan s3 []) [])).
+  { intros s3 I. eapply inv_sess_inv. apply inv_set_tb. apply inv_set_plan_nil. exact I. }
+  destruct res as [[o|]|e|e]; cbn [res_ok] in Hres.
+  - assert (H3 : hok 0 ND (fire_due s2) o) by (eapply hok_ids; [apply ids_pres_heap; exact Hh | exact Hres]).
+    pose proof (hu_body_inv _ (fire_due s2) o (had_cookie q) (rq_script r) c post I3 H3) as I4.
+    destruct (hu_body (fire_due s2) o (had_cookie q) (rq_script r) c post) as [[[s3 sr] ck'] mid].
+    cbn [fst w_st]. apply Fin. exact I4.
+  - cbn [fst w_st]. apply Fin. exact I3.
+  - cbn [fst w_st]. apply Fin. exact I3.
+  - contradiction.
+Qed.
+
+(* histories mixing plain steps and composite requests *)
+Definition ff_hstep (x : hstep) : Prop :=
+  match x with
+  | HPlain h => ff_hop h /\ crash_free h
+  | HUser r _ _ => rq_plan r = []
+  end.
+
+Theorem hu_step1_sess_inv w x : sess_inv (w_st w) -> ff_hstep x -> sess_inv (w_st (fst (hu_step1 w x))).
+Proof.
+  intros Hinv Hx. destruct x as [h|r c post]; cbn [hu_step1].
+  - destruct Hx as [Hff Hcf]. pose proof (step_sess_inv w h Hinv Hff Hcf) as H.
+    destruct (step w h) as [w' ob]. exact H.
+  - apply hu_step_sess_inv; assumption.
+Qed.
+
+Theorem hu_after_sess_inv : forall l w, sess_inv (w_st w) -> Forall ff_hstep l -> sess_inv (w_st (hu_after w l)).
+Proof.
+  induction l as [|x t IH]; intros w Hinv Hl; cbn [hu_after]; [exact Hinv|].
+  inversion Hl as [|? ? Hx Ht]; subst. apply IH; [apply hu_step1_sess_inv; assumption | exact Ht].
+Qed.
+
+(* the world a mixed history reaches *)
+Definition hu_reach (c : cfg) (l : list hstep) : world := hu_after (mkWorld (init_st c) []) l.
+
+Theorem hu_reach_sess_inv c l : Forall ff_hstep l -> sess_inv (w_st (hu_reach c l)).
+Proof.
+  intro Hl. apply hu_after_sess_inv; [|exact Hl].
+  exact (LiveHist8.reach_sess_inv c [] (Forall_nil _) (Forall_nil _)).
+Qed.
+
+(* plain histories are a special case *)
+Lemma hu_after_plain : forall hs w, hu_after w (map HPlain hs) = after w hs.
+Proof.
+  induction hs as [|h t IH]; intro w; cbn [map hu_after after]; [reflexivity|].
+  cbn [hu_step1]. destruct (step w h) as [w' ob]. cbn [fst]. apply IH.
+Qed.
+
+Lemma hu_reach_plain c hs : hu_reach c (map HPlain hs) = reach c hs.
+Proof. apply hu_after_plain. Qed.
+
+Lemma ff_hstep_plain hs : Forall ff_hop hs -> Forall crash_free hs -> Forall ff_hstep (map HPlain hs).
+Proof.
+  induction hs as [|h t IH]; intros Hf Hc; cbn [map]; [constructor|].
+  inversion Hf; inversion Hc; subst. constructor; [split; assumption | apply IH; assumption].
+Qed.
+
+Section Reach.
+  (* any world satisfying the invariants: in particular the world after any
+     fault-free, crash-free history mixing plain steps and composite requests *)
+  Variable w : world.
+  Hypothesis Hinv : sess_inv (w_st w).
+
+  (* (1) at every handler position *)
+  Theorem hu_logout_at r pre s o ob u post :
     handler_at w r pre s o -> own_cached s o ob (listed s u) -> In (o_id ob) (listed s u) ->
     forallb data_op post = true ->
     exists s1 s' rs mid new,
@@ -53,19 +146,55 @@ Section Reach.
       evs s' = new ++ evs (fire_due s1) /\ Forall nouser_ev new /\
       (forall k, In k (listed s u) -> nouser_at s' k).
   Proof.
-    intros Hat Hown Hin Hd. destruct (handler_inv_hist c hs Hff Hcf r pre s o Hat) as [HI _].
+    intros Hat Hown Hin Hd. destruct (handler_at_inv w r pre s o Hinv Hat) as [HI _].
     apply hu_tail_logout; assumption.
   Qed.
 
   (* (3) *)
-  Theorem hu_refresh_hist r pre s o ob u :
+  Theorem hu_refresh_at r pre s o ob u post :
     handler_at w r pre s o -> own_cached s o ob (listed s (fst u)) -> In (o_id ob) (listed s (fst u)) ->
-    exists s1 mid,
+    forallb data_op post = true ->
+    exists s1 s' rs mid new,
       refresh_user s u = (s1, Ok tt) /\
-      hu_tail s o (had_cookie (req_q w r)) (URefresh u) [] = (fire_due s1, [SOk], [], Some (o_id ob, mid)) /\
-      r_user mid = Some u /\ sess_inv (fire_due s1).
+      hu_tail s o (had_cookie (req_q w r)) (URefresh u) post = (s', SOk :: rs, [], Some (o_id ob, mid)) /\
+      r_user mid = Some u /\ sess_inv s' /\
+      (exists ob', hget s' o = Some ob' /\ o_id ob' = o_id ob /\ r_user (o_rec ob') = Some u) /\
+      evs s' = new ++ evs (fire_due s1) /\ Forall (ev_sat (fun x => x = Some (fst u, 0%N))) new /\
+      (forall k, In k (listed s (fst u)) ->
+         (forall rr, lookup (store s') k = Some rr -> r_user rr = Some (fst u, 0%N)) /\
+         (forall o2 ob2, lookup (cache s') k = Some o2 -> hget s' o2 = Some ob2 -> r_user (o_rec ob2) = Some u)).
   Proof.
-    intros Hat Hown Hin. destruct (handler_inv_hist c hs Hff Hcf r pre s o Hat) as [HI _].
+    intros Hat Hown Hin Hd. destruct (handler_at_inv w r pre s o Hinv Hat) as [HI _].
     apply hu_tail_refresh; assumption.
   Qed.
 End Reach.
+
+(* at every handler position of every fault-free, crash-free history that may
+   itself contain earlier in-handler calls *)
+Theorem hu_logout_hist c l : Forall ff_hstep l ->
+  forall r pre s o ob u post,
+  handler_at (hu_reach c l) r pre s o -> own_cached s o ob (listed s u) -> In (o_id ob) (listed s u) ->
+  forallb data_op post = true ->
+  exists s1 s' rs mid new,
+    logout_user s u = (s1, Ok tt) /\
+    hu_tail s o (had_cookie (req_q (hu_reach c l) r)) (ULogout u) post = (s', SOk :: rs, [], Some (o_id ob, mid)) /\
+    r_user mid = None /\ sess_inv s' /\
+    (exists ob', hget s' o = Some ob' /\ o_id ob' = o_id ob /\ r_user (o_rec ob') = None) /\
+    evs s' = new ++ evs (fire_due s1) /\ Forall nouser_ev new /\
+    (forall k, In k (listed s u) -> nouser_at s' k).
+Proof. intros Hl r pre s o ob u post. apply hu_logout_at. apply hu_reach_sess_inv. exact Hl. Qed.
+
+Theorem hu_refresh_hist c l : Forall ff_hstep l ->
+  forall r pre s o ob u post,
+  handler_at (hu_reach c l) r pre s o -> own_cached s o ob (listed s (fst u)) -> In (o_id ob) (listed s (fst u)) ->
+  forallb data_op post = true ->
+  exists s1 s' rs mid new,
+    refresh_user s u = (s1, Ok tt) /\
+    hu_tail s o (had_cookie (req_q (hu_reach c l) r)) (URefresh u) post = (s', SOk :: rs, [], Some (o_id ob, mid)) /\
+    r_user mid = Some u /\ sess_inv s' /\
+    (exists ob', hget s' o = Some ob' /\ o_id ob' = o_id ob /\ r_user (o_rec ob') = Some u) /\
+    evs s' = new ++ evs (fire_due s1) /\ Forall (ev_sat (fun x => x = Some (fst u, 0%N))) new /\
+    (forall k, In k (listed s (fst u)) ->
+       (forall rr, lookup (store s') k = Some rr -> r_user rr = Some (fst u, 0%N)) /\
+       (forall o2 ob2, lookup (cache s') k = Some o2 -> hget s' o2 = Some ob2 -> r_user (o_rec ob2) = Some u)).
+Proof. intros Hl r pre s o ob u post. apply hu_refresh_at. apply hu_reach_sess_inv. exact Hl. Qed.
